@@ -7,7 +7,7 @@
 From Coq Require Import ZArith List Bool Lia.
 From PCB Require Import lib.Result lib.PyInt model.StrSpace model.UserFn
      proofs.StrSpace_base proofs.StrSpace_gc proofs.StrSpace_inv proofs.StrSpace_ops
-     proofs.UserFn_proofs proofs.UserFn_stmt proofs.UserFn_values.
+     proofs.UserFn_proofs proofs.UserFn_stmt proofs.UserFn_values proofs.UserFn_binding.
 Import ListNotations.
 Open Scope Z_scope.
 
@@ -82,22 +82,23 @@ Theorem C20_undefined : forall c ev f args st, lookup f (fns st) = None -> evalu
 Proof. intros c ev f args st H. unfold evaluate. rewrite H. reflexivity. Qed.
 Print Assumptions C20_undefined.
 
-(* binding during the body: stated in full, proved by the correspondence tests only (the body of every
-   generated function reads its parameters) *)
-Definition C20_binding_statement : Prop :=
-  forall (c : cfg) (ev : expr -> state -> R obj) (f : Z) (args : list expr) (st st1 st2 st3 : state)
-         (ps0 : list Z) (body : expr),
-    lookup f (fns st) = Some (ps0, body) -> let ps := map (resolve st) ps0 in NoDup ps ->
-    eval_args ev ps args st = (st1, Ok tt) -> mem_z f (active st1) = false ->
-    save_params c ps [] st1 = (st2, Ok tt) ->
-    bind_params c ps 0 (Nat.min (length ps) (length args)) (length (tvals st2) - length (tvals st1)) st2 = (st3, Ok tt) ->
-    (* when the body is started, parameter j holds the converted value of argument j *)
-    forall j p, nth_error ps j = Some p -> (j < length args)%nat ->
-      let arg := nth ((length (tvals st2) - length (tvals st1)) + (Nat.min (length ps) (length args) - 1 - j)) (tvals st3) (ONum 0 0) in
-      match arg with
-      | ONum _ z => lookup p (scal st3) = Some (SNum z)
-      | o => fst (sval_of c st3 p) = deref c st3 (optr st3 o)
-      end.
+(* binding: when the body is started, every parameter holds its converted argument - for repeated names the last
+   occurrence wins, exactly as the assignment loop of the code; the names ps are the ones completed with the
+   default types of the moment of the call (C20 model: map (resolve st) ps0).  `typed_for p o` is what the argument
+   loop produces (conv_arg_typed): a string pointer of its own for a string parameter, a number that fits the
+   parameter's type otherwise. *)
+Theorem C20_binding : forall c ps j k m s s',
+  Good c s -> (j + length ps <= k)%nat ->
+  (forall i n, nth_error ps i = Some n -> typed_for n (nth (m + (k - 1 - (j + i))) (tvals s) (ONum 0 0))) ->
+  bind_params c ps j k m s = (s', Ok tt) ->
+  forall i n, nth_error ps i = Some n -> ~ In n (skipn (S i) ps) ->
+    sval_of c s' n = arg_val c s' (nth (m + (k - 1 - (j + i))) (tvals s') (ONum 0 0)).
+Proof. exact bind_params_values. Qed.
+Print Assumptions C20_binding.
+
+Theorem C20_argument_typed : forall p s v o, conv_arg p s v = Ok o -> typed_for p o.
+Proof. exact conv_arg_typed. Qed.
+Print Assumptions C20_argument_typed.
 
 (* non-vacuity: with one function defined, a call on a good state satisfies the hypotheses and returns *)
 Example C20_nonvacuous :
